@@ -285,8 +285,16 @@ def ambiguity(model: Model, run: Run, rule: str, only_module, floor_sites: int, 
         distinct.setdefault((s.pattern, s.flags, s.api if s.api in ("match", "fullmatch") else "search"), []).append(s)
     run.coverage["patterns"] = len(distinct)
     run.floor("distinct patterns", len(distinct), floor_patterns)
+    from ..rx.eda import confirmed_exponential
     for (pat, flags, api), ss in distinct.items():
-        nfa = build(pat, flags, "match" if api != "fullmatch" else "fullmatch")
+        # look-ahead assertions are built as empty transitions: the automaton then has every run the matcher can make (an assertion
+        # only prunes); an ambiguity found in it is confirmed by counting runs over the witness with the assertions evaluated
+        nfa = build(pat, flags, "match" if api != "fullmatch" else "fullmatch", lookaround="epsilon")
+        for neg_, dir_, items_ in list(nfa.assertions):
+            sub = build(pat, flags, "match", lookaround="epsilon", items_override=list(items_))
+            g2, finds2 = find_eda(sub)
+            if finds2:
+                raise AnalysisError(f"pattern {ss[0].name}: the sub-pattern of a look-around is itself ambiguous: not decided")
         g, finds = find_eda(nfa)
         site0 = ss[0]
         label = {"pattern": site0.name, "api": api, "positions": len(nfa.positions), "loops": len(nfa.loops), "uses": [f"{s.func.split('sansldap.')[-1]}:{s.line}" for s in ss]}
@@ -304,6 +312,12 @@ def ambiguity(model: Model, run: Run, rule: str, only_module, floor_sites: int, 
             if key in reported:
                 continue
             reported.add(key)
+            if nfa.assert_edges:
+                verdict = confirmed_exponential(nfa, fs[0], fs[1], fs[2])
+                if verdict is False:
+                    continue          # the assertions cut the competing runs of this witness
+                if verdict is None:
+                    raise AnalysisError(f"pattern {site0.name}: an ambiguity next to a look-around could be neither confirmed nor ruled out")
             real.append((f, fs))
         run.ob(rule, not real, dict(label, ambiguous_forks=len(finds), with_failing_witness=len(real)))
         for f, (xs, ws, suf) in real[:3]:
